@@ -121,7 +121,11 @@ pub fn install_panic_hook() {
         let loc = info.location().map(|l| format!(" @{}:{}", l.file(), l.line())).unwrap_or_default();
         let _ = LAST_PANIC.try_with(|l| {
             if let Ok(mut g) = l.try_borrow_mut() {
-                // keep the first panic of a cascade
+                // keep the first panic of a cascade (a tracker report wraps the
+                // loom panic it caught: prefer the report)
+                if msg.contains("KANAL-VERIF-VIOLATION") && !g.contains("KANAL-VERIF-VIOLATION") {
+                    *g = format!("{msg}{loc}");
+                }
                 if g.is_empty() {
                     *g = format!("{msg}{loc}");
                     if !msg.contains("KMC-CAP") {
